@@ -222,6 +222,9 @@ func restrictDist(before, after *ref.Node, keep []string, what string) error {
 	if err != nil {
 		return fmt.Errorf("%s: result has duplicate tips: %v", what, err)
 	}
+	// lengths on one dyadic grid: every path sum is exact; otherwise (grids mixed by a chained node
+	// or a graft) sums may differ in their last bits
+	exact := gen.IsDyadicExact(before)
 	ib, ia := map[string]int{}, map[string]int{}
 	for i, n := range nb {
 		ib[n] = i
@@ -236,7 +239,7 @@ func restrictDist(before, after *ref.Node, keep []string, what string) error {
 			if !ok1 || !ok2 {
 				return fmt.Errorf("%s: pre-existing tip %q or %q is gone", what, x, y)
 			}
-			if got, want := da[i][j], db[ib[x]][ib[y]]; got != want {
+			if got, want := da[i][j], db[ib[x]][ib[y]]; !ref.Close(got, want, exact) {
 				return fmt.Errorf("%s: path length %s-%s changed from %v to %v", what, x, y, want, got)
 			}
 		}
@@ -520,7 +523,7 @@ func check(c Case) error {
 		if err != nil {
 			return err
 		}
-		if err := ref.CompareU(ub, ua, true, false); err != nil {
+		if err := ref.CompareU(ub, ua, gen.IsDyadicExact(c.Tree), false); err != nil {
 			return fmt.Errorf("removal of single-child nodes: %v%s", err, ctx(ref.Write(after)))
 		}
 		return tipSetIs(after, c.Tree.Tips(), "single nodes")
